@@ -38,7 +38,7 @@ class ParameterHistory:
         """
         history = cls()
 
-        history._parameter_labels = history_df.columns
+        history._parameter_labels = list(history_df.columns)
 
         for parameter_values in history_df.values:
             history._parameters.append(parameter_values)
